@@ -441,6 +441,9 @@ func (fr *frame) indexAddr(x *ssa.IndexAddr, st *bstate) {
 	var b, i, ln string
 	switch t := x.X.Type().Underlying().(type) {
 	case *types.Slice:
+		// an element of a slice that was loaded from a guarded field is read or written with the lock held,
+		// also when the slice header was copied to a local while the lock was held
+		fr.checkGuardedValue(x.X, st, false, x.Pos())
 		et = t.Elem()
 		b, i, ln = f.sliceBase(base.Tm), app("+", f.sliceOff(base.Tm), idx), f.sliceLen(base.Tm)
 	case *types.Pointer:
